@@ -14,7 +14,7 @@ import (
 func init() {
 	register("C01",
 		"that the conversion round-trips or preserves order on any date: the real new moons and terms, the day counts they give and the explicit leap overrides (LEAP_11, LEAP_12) are numeric data of the astronomy; R06.5 follows the construction of the month table on a synthetic ephemeris only.",
-		r01_1, r01_2, r01_3, r01_4, r01_5, r01_6, r06_2, r08_6, r08_8, r04_2, r06_4, r06_5)
+		r01_1, r01_2, r01_3, r01_6, r06_2, r08_6, r08_8, r04_2, r06_4, r06_5)
 }
 
 func r01_1(c *Ctx, r *Report) {
@@ -242,118 +242,3 @@ func r01_3(c *Ctx, r *Report) {
 	anchoredOnCivilYear(c, r, rule)
 }
 
-func r01_4(c *Ctx, r *Report) {
-	const rule = "R01.4"
-	r.rule(rule, "Inverse day offsets. civil->lunar sets lunarDay = daysSinceFirst + c1 and lunar->civil uses firstJulianDay + (lunarDay + c2); c1 + c2 = 0 (today +1 / -1), a necessary condition of the round trip on every day.")
-	a, b := c.Fn(r, rule, "calendar.NewLunarFromSolar"), c.Fn(r, rule, "calendar.NewLunar")
-	if a == nil || b == nil {
-		return
-	}
-	c1, ok1 := int64(0), false
-	for _, bb := range a.Blocks {
-		for _, ins := range bb.Instrs {
-			if bo, ok := ins.(*ssa.BinOp); ok && bo.Op == token.ADD {
-				if k, ok := constInt(bo.Y); ok {
-					if call, ok := bo.X.(*ssa.Call); ok && call.Common().StaticCallee() != nil && call.Common().StaticCallee().Name() == "Subtract" {
-						c1, ok1 = k, true
-					}
-				}
-			}
-		}
-	}
-	c2, ok2 := int64(0), false
-	for _, bb := range b.Blocks {
-		for _, ins := range bb.Instrs {
-			if cv, ok := ins.(*ssa.Convert); ok && isFloatType(cv.Type()) {
-				if bo, ok := cv.X.(*ssa.BinOp); ok && (bo.Op == token.SUB || bo.Op == token.ADD) {
-					if p, ok := bo.X.(*ssa.Parameter); ok && len(b.Params) > 2 && p == b.Params[2] { // the day parameter (third)
-						if k, ok := constInt(bo.Y); ok {
-							c2, ok2 = k, true
-							if bo.Op == token.SUB {
-								c2 = -k
-							}
-						}
-					}
-				}
-			}
-		}
-	}
-	r.check(ok1 && ok2 && c1+c2 == 0, rule, "day offsets of the two routes cancel", c.fnPos(a), fmt.Sprintf("civil->lunar: day = diff %+d (found %v); lunar->civil: first + (day %+d) (found %v)", c1, ok1, c2, ok2))
-}
-
-func r01_5(c *Ctx, r *Report) {
-	const rule = "R01.5"
-	r.rule(rule, "Field copies are like-to-like. In NewLunarFromSolar the lunar object's hour/minute/second come from the civil date's hour/minute/second respectively (year, month and day: R01.6); in NewLunar each field is stored from the parameter of the same meaning. A swapped sibling getter (minute for second) makes the two routes observably different.")
-	if fn := c.Fn(r, rule, "calendar.NewLunarFromSolar"); fn != nil {
-		want := map[string]string{"Lunar.hour": "Solar.hour", "Lunar.minute": "Solar.minute", "Lunar.second": "Solar.second"}
-		got := map[string]string{}
-		for _, b := range fn.Blocks {
-			for _, ins := range b.Instrs {
-				st, ok := ins.(*ssa.Store)
-				if !ok {
-					continue
-				}
-				fa, ok := st.Addr.(*ssa.FieldAddr)
-				if !ok {
-					continue
-				}
-				if _, f, ok := getterField(c, st.Val); ok {
-					got[fieldKeyOf(fa)] = f
-				}
-			}
-		}
-		var bad []string
-		for k, w := range want {
-			if got[k] != w {
-				bad = append(bad, fmt.Sprintf("%s <- %s (expected %s)", k, got[k], w))
-			}
-		}
-		sort.Strings(bad)
-		r.check(len(bad) == 0, rule, "calendar.NewLunarFromSolar copies the time of day field by field", c.fnPos(fn), strings.Join(bad, "; "))
-		// (year, month and day: what the search stores is decided by evaluation, R01.6)
-	}
-	if fn := c.Fn(r, rule, "calendar.NewLunar"); fn != nil {
-		want := map[string]string{}
-		for i, f := range []string{"Lunar.year", "Lunar.month", "Lunar.day", "Lunar.hour", "Lunar.minute", "Lunar.second"} {
-			if i < len(fn.Params) {
-				want[f] = fn.Params[i].Name() // by position: (year, month, day, hour, minute, second)
-			}
-		}
-		var bad []string
-		for _, b := range fn.Blocks {
-			for _, ins := range b.Instrs {
-				st, ok := ins.(*ssa.Store)
-				if !ok {
-					continue
-				}
-				fa, ok := st.Addr.(*ssa.FieldAddr)
-				if !ok {
-					continue
-				}
-				if w, ok := want[fieldKeyOf(fa)]; ok {
-					if p, isP := st.Val.(*ssa.Parameter); !isP || p.Name() != w {
-						bad = append(bad, fieldKeyOf(fa)+" is not stored from parameter "+w)
-					}
-					delete(want, fieldKeyOf(fa))
-				}
-			}
-		}
-		for k := range want {
-			bad = append(bad, k+" is not stored")
-		}
-		sort.Strings(bad)
-		r.check(len(bad) == 0, rule, "calendar.NewLunar stores each date field from its own parameter", c.fnPos(fn), strings.Join(bad, "; "))
-		// the civil date carries the same time of day
-		for _, b := range fn.Blocks {
-			for _, ins := range b.Instrs {
-				if call, ok := ins.(*ssa.Call); ok && call.Common().StaticCallee() != nil && fname(call.Common().StaticCallee()) == "calendar.NewSolar" {
-					var as []string
-					for _, a := range call.Common().Args[3:] {
-						as = append(as, describeArg(c, fn, a))
-					}
-					r.check(equalStrs(as, []string{"p3", "p4", "p5"}), rule, "calendar.NewLunar gives the civil date the same hour, minute, second", c.pos(call.Pos()), strings.Join(as, ", "))
-				}
-			}
-		}
-	}
-}
